@@ -3,6 +3,7 @@ C11, C12, C13: harness/cmd/wse2e runs real servers in every upgrade path; the tr
 against WsOrderMonTrace.  A rejection is reported by the property whose clause it violates; rejections
 of other clauses are noted (the owning property's check reports them)."""
 import json
+import os
 import random
 
 from . import common
@@ -166,3 +167,56 @@ def run(res, scratch, prop, tier, seed, only=None):
     res.coverage["ws_e2e_connections"] = res.coverage.get("ws_e2e_connections", 0) + n
     validate(res, scratch, prop, tp, {s["id"]: s for s in scens}, leg="e2e")
     res.sample({"ws_e2e_config": scens[0]["id"], "conn": scens[0]["conns"][0]})
+    return tp
+
+
+DISPATCH_CFG = """SPECIFICATION Spec
+CONSTANTS
+  Paths = {"poller", "inline", "transfer"}
+  NMsg = 3
+  Fix <- %s
+INVARIANTS OpenBeforeMsg OneAtATime WireOrder CloseOnceLast
+PROPERTY CloseHappens
+CHECK_DEADLOCK FALSE
+"""
+DISPATCH_TRACE_CFG = """SPECIFICATION TraceSpec
+CONSTANTS
+  Paths = {"poller"}
+  NMsg = 64
+  Fix = {"gate", "queue"}
+POSTCONDITION Post
+CHECK_DEADLOCK FALSE
+"""
+
+
+def dispatch_model(res, scratch):
+    """WsDispatch.tla: TLC checks the callback-order clauses for the three dispatch structures; with either repair
+    switched off it must reproduce the defect (vacuity guard)."""
+    r = common.tlc_check(scratch, "WsDispatchMC", cfg_text=DISPATCH_CFG % "FixAll", timeout=600)
+    res.add_model("wsdispatch-3paths-3msgs", r)
+    for fix in ("FixQueue", "FixGate"):
+        rc, out, dt = common.tlc_raw(scratch, "WsDispatchMC", None, cfg_text=DISPATCH_CFG % fix, timeout=600)
+        if "is violated" not in out:
+            raise Infra("WsDispatch.tla with %s does not reproduce the repaired defect: the model is vacuous" % fix)
+
+
+def dispatch_conformance(res, scratch, tp):
+    """Every callback event of the recorded end-to-end trace has to be producible by WsDispatch.tla (internal steps are
+    inferred by TLC).  An unexplained event is drift of the implementation-level model: reported, never a verdict."""
+    outp = scratch.fresh("dispout") + ".ndjson"
+    rc, out, dt = common.tlc_raw(scratch, "WsDispatchTrace", None, cfg_text=DISPATCH_TRACE_CFG, workers=1, timeout=1800,
+                                 env_extra={"VERIF_TRACE": tp, "VERIF_MONOUT": outp}, heap="8g")
+    if not os.path.exists(outp):
+        res.notes.append("WsDispatch conformance run did not finish (rc=%d); not a verdict" % rc)
+        return
+    summ = json.loads(open(outp).readline())
+    res.coverage["dispatch_conformance"] = {"events": summ["events"], "explained_up_to": summ["reached"]}
+    if summ["reached"] < summ["events"]:
+        res.coverage["drift"] += 1
+        ev = common.read_ndjson(tp)
+        i = min(summ["reached"], len(ev) - 1)
+        k = i
+        while k >= 0 and ev[k].get("ev") != "reset":
+            k -= 1
+        res.notes.append("drift: WsDispatch.tla does not explain event %d (%s) of connection %s; the rest of the trace was not "
+                         "compared (not a verdict)" % (i + 1, ev[i], ev[k].get("id") if k >= 0 else "?"))
